@@ -67,17 +67,21 @@ def canon_env(fn):
     return env
 
 
-def idc(e, env, ids, consts, depth=0):
+def idc(e, env, ids, consts, depth=0, in_local=False):
     """identifiers and constants of an expression.  env: decl id -> identity string (canon_env), or ("expr", node, env2): the
     local / parameter stands for that expression (a single-assignment local for its initialiser, a parameter of an inlined helper
     for the caller's argument) and contributes the identifiers / constants of that expression instead of a name"""
     if isinstance(e, list):
         for x in e:
-            idc(x, env, ids, consts, depth)
+            idc(x, env, ids, consts, depth, in_local)
         return
     if not isinstance(e, dict):
         return
     k = e.get("k")
+    if k == "Cond" and in_local:
+        idc(e.get("a"), env, ids, consts, depth, in_local)
+        idc(e.get("e"), env, ids, consts, depth, in_local)
+        return
     if k == "Ref":
         if "v" in e:
             if e.get("t") != "bool" or True:
@@ -86,7 +90,13 @@ def idc(e, env, ids, consts, depth=0):
         b = env.get(e.get("d"))
         if isinstance(b, tuple):
             if depth < 8:
-                idc(b[1], b[2] if len(b) > 2 and b[2] is not None else env, ids, consts, depth + 1)
+                # the local stands for the value(s) it is given: one initialiser, or every plainly assigned value (if / else
+                # assignment and a conditional initialiser give the same set; the selecting condition is not part of it)
+                ti, tc = [], []
+                for val in (b[1] if isinstance(b[1], list) else [b[1]]):
+                    idc(val, b[2] if len(b) > 2 and b[2] is not None else env, ti, tc, depth + 1, True)
+                ids.extend(sorted(set(str(x) for x in ti if x)))
+                consts.extend(sorted(set(tc), key=lambda x: (str(type(x)), x)))
             return
         ids.append(b or e.get("n"))
         return
@@ -100,7 +110,40 @@ def idc(e, env, ids, consts, depth=0):
             return
     for kk, v in e.items():
         if isinstance(v, (dict, list)):
-            idc(v, env, ids, consts, depth)
+            idc(v, env, ids, consts, depth, in_local)
+
+
+def plainly_assigned_locals(fn):
+    """decl id -> list of value expressions, for locals that are only ever written by their initialiser and by plain `x = value`
+    statements (no compound assignment, ++ / --, address-of, no use as an output argument of memcpy / copy_from_mem)"""
+    vals, bad = {}, set()
+
+    def v(n):
+        k = n.get("k")
+        if k == "Decl":
+            for x in n.get("vars", []):
+                if "d" in x:
+                    vals.setdefault(x["d"], [])
+                    if x.get("init") is not None:
+                        vals[x["d"]].append(x["init"])
+        elif k == "Assign":
+            t = strip(n.get("l"))
+            if isinstance(t, dict) and t.get("k") == "Ref":
+                if n.get("op") == "=":
+                    vals.setdefault(t.get("d"), []).append(n.get("r"))
+                else:
+                    bad.add(t.get("d"))
+        elif k == "Un" and n.get("op") in ("++", "--", "&"):
+            t = strip(n.get("e"))
+            if isinstance(t, dict) and t.get("k") == "Ref":
+                bad.add(t.get("d"))
+        elif k == "Call" and n.get("cname") in ("copy_from_mem", "memcpy", "read"):
+            for a in n.get("args", []):
+                a = strip(a)
+                if isinstance(a, dict) and a.get("k") == "Ref":
+                    bad.add(a.get("d"))
+    walk(fn.get("body"), v)
+    return {d: vs for d, vs in vals.items() if d not in bad and vs}
 
 
 def flat_env(fn):
@@ -108,10 +151,15 @@ def flat_env(fn):
     inlining one, does not change the identifiers / constants of a condition)"""
     from astu import single_assignment_locals
     env = dict(canon_env(fn))
-    sa = single_assignment_locals(fn)
+    pa = plainly_assigned_locals(fn)
     for d, ident in list(env.items()):
-        if ident.startswith("=") and d in sa:
-            env[d] = ("expr", sa[d], None)
+        if ident.startswith("=") and d in pa:
+            # a self-referencing update (x = f(x)) cannot be flattened
+            selfref = [False]
+            for val in pa[d]:
+                walk(val, lambda x: selfref.__setitem__(0, True) if x.get("k") == "Ref" and x.get("d") == d else None)
+            if not selfref[0]:
+                env[d] = ("expr", pa[d] if len(pa[d]) > 1 else pa[d][0], None)
     return env
 
 
